@@ -297,10 +297,11 @@ fn dec_value(bytes: &[u8], idx: &mut usize) -> Result<Value> {
             let i = if major == 0 {
                 Integer::from(n)
             } else {
+                // Major type 1 covers -2^64..=-1; the encoder emits all of it, so the
+                // decoder must accept all of it (not only the i64 range).
                 let neg = -(1i128 + i128::from(n));
-                let signed = i64::try_from(neg)
-                    .map_err(|_| CanonError::Decode("integer out of range".into()))?;
-                Integer::from(signed)
+                Integer::try_from(neg)
+                    .map_err(|_| CanonError::Decode("integer out of range".into()))?
             };
             Ok(Value::Integer(i))
         }
